@@ -140,13 +140,15 @@ pub struct CaseOut {
     pub viols: Vec<Viol>,
     /// named counters (ok draws, errors by kind, …)
     pub counters: Vec<(String, u64)>,
+    /// wall time of the case in the worker (filled by `worker_main`; informational only)
+    pub ms: u64,
 }
 
 impl CaseOut {
     pub fn to_json(&self) -> Value {
         json!({"d": self.digests, "nt": self.nontrivial, "ev": self.evals, "tr": self.calls,
                "v": self.viols.iter().map(|v| v.to_json()).collect::<Vec<_>>(),
-               "c": self.counters.iter().map(|(k, n)| json!([k, n])).collect::<Vec<_>>()})
+               "c": self.counters.iter().map(|(k, n)| json!([k, n])).collect::<Vec<_>>(), "ms": self.ms})
     }
     pub fn from_json(v: &Value) -> CaseOut {
         let u64s = |x: &Value| -> Vec<u64> {
@@ -157,6 +159,7 @@ impl CaseOut {
         CaseOut {
             digests: u64s(&v["d"]),
             nontrivial: u64s(&v["nt"]),
+            ms: v["ms"].as_u64().unwrap_or(0),
             evals: v["ev"].as_u64().unwrap_or(0),
             calls: v["tr"].as_u64().unwrap_or(0),
             viols: v["v"]
@@ -199,9 +202,23 @@ pub enum Outcome {
 // ---------------------------------------------------------------------------------------------
 
 fn raw_write(s: &[u8]) {
-    unsafe {
-        libc::write(1, s.as_ptr() as *const libc::c_void, s.len());
+    let mut done = 0;
+    while done < s.len() {
+        let r = unsafe { libc::write(1, s[done..].as_ptr() as *const libc::c_void, s.len() - done) };
+        if r <= 0 {
+            break;
+        }
+        done += r as usize;
     }
+}
+
+/// All regular worker output goes through this lock as whole lines (std's stdout splits long lines into
+/// several writes, which would interleave with the monitor's heartbeat).
+static OUT_LOCK: Mutex<()> = Mutex::new(());
+fn emit(line: &str) {
+    let _g = OUT_LOCK.lock();
+    raw_write(line.as_bytes());
+    raw_write(b"\n");
 }
 
 /// async-signal-safe "<tag> <stage> <sub>\n"
@@ -324,7 +341,9 @@ fn monitor(watchdog_ms: u64) {
         since_h += step;
         if since_h >= 1000 {
             since_h = 0;
-            raw_write(b"H\n");
+            if let Ok(_g) = OUT_LOCK.try_lock() {
+                raw_write(b"H\n");
+            }
         }
         let now = PROGRESS.load(Ordering::Relaxed);
         if now != last || !IN_CASE.load(Ordering::Relaxed) {
@@ -359,8 +378,8 @@ pub fn worker_main(run: &dyn Fn(&Value) -> CaseOut) -> ! {
         .unwrap_or(10_000);
     unsafe {
         MAIN_THREAD.store(libc::pthread_self() as u64, Ordering::Relaxed);
-        libc::signal(libc::SIGUSR1, on_usr1 as usize);
-        libc::signal(libc::SIGABRT, on_abrt as usize);
+        libc::signal(libc::SIGUSR1, on_usr1 as *const () as usize);
+        libc::signal(libc::SIGABRT, on_abrt as *const () as usize);
         // bound the address space so that a font-controlled giant allocation aborts this worker
         // (reported as a violation) instead of taking the machine down
         let lim = libc::rlimit {
@@ -384,17 +403,18 @@ pub fn worker_main(run: &dyn Fn(&Value) -> CaseOut) -> ! {
         }
         let mut it = l.splitn(3, ' ');
         let (Some("C"), Some(n), Some(js)) = (it.next(), it.next(), it.next()) else {
-            println!("E bad line");
+            emit("E bad line");
             std::process::exit(4);
         };
         let Ok(spec) = serde_json::from_str::<Value>(js) else {
-            println!("E bad json");
+            emit("E bad json");
             std::process::exit(4);
         };
-        println!("S {n}");
+        emit(&format!("S {n}"));
         mark(0, 0);
         IN_CASE.store(true, Ordering::Relaxed);
-        let out = match vcore::guard(|| run(&spec)) {
+        let t0 = std::time::Instant::now();
+        let mut out = match vcore::guard(|| run(&spec)) {
             Ok(o) => o,
             Err(p) => CaseOut {
                 evals: 1,
@@ -411,7 +431,8 @@ pub fn worker_main(run: &dyn Fn(&Value) -> CaseOut) -> ! {
             },
         };
         IN_CASE.store(false, Ordering::Relaxed);
-        println!("D {n} {}", out.to_json());
+        out.ms = t0.elapsed().as_millis() as u64;
+        emit(&format!("D {n} {}", out.to_json()));
     }
 }
 
